@@ -14,6 +14,19 @@ type universe struct {
 	Name  string
 	Nodes []pdef
 	by    map[string]*pdef
+	// Ledger: a chain of proposals (heights 1..n = their views) already in the
+	// ledger when the node starts: InitQCTree then builds the restart shape.
+	Ledger []string
+}
+
+func (u *universe) withLedger(chain ...string) *universe {
+	for k, n := range chain {
+		if u.by[n] == nil || u.by[n].View != int64(k+1) || (k == 0 && u.by[n].Parent != genesis) || (k > 0 && u.by[n].Parent != chain[k-1]) {
+			panic("c15: universe " + u.Name + ": bad ledger chain at " + n)
+		}
+	}
+	u.Ledger = chain
+	return u
 }
 
 const genesis = "G"
@@ -122,6 +135,19 @@ var (
 	uOrph = reg(mkUniverse("orphans",
 		pdef{"r", 1, "G"}, pdef{"q", 2, "r"}, pdef{"s1", 3, "q"},
 		pdef{"s2", 3, "q"}, pdef{"t", 4, "s2"}))
+
+	// U5: restart on a ledger of 4 blocks: InitQCTree gives Root = r1,
+	// GenericQC = r2, HighQC = r3 with the tip r4 under it; then r5, r6 extend
+	// the tip, x4 competes with r4 and y5 hangs under x4.
+	uRestart4 = reg(mkUniverse("restart4",
+		pdef{"r1", 1, "G"}, pdef{"r2", 2, "r1"}, pdef{"r3", 3, "r2"}, pdef{"r4", 4, "r3"},
+		pdef{"r5", 5, "r4"}, pdef{"r6", 6, "r5"}, pdef{"x4", 4, "r3"}, pdef{"y5", 5, "x4"}).withLedger("r1", "r2", "r3", "r4"))
+
+	// U6: restart on a ledger of 2 blocks: Root = a copy of block 0, HighQC = r1
+	// with the tip r2 under it, no GenericQC.
+	uRestart2 = reg(mkUniverse("restart2",
+		pdef{"r1", 1, "G"}, pdef{"r2", 2, "r1"}, pdef{"r3", 3, "r2"}, pdef{"r4", 4, "r3"},
+		pdef{"r5", 5, "r4"}, pdef{"x2", 2, "r1"}).withLedger("r1", "r2"))
 
 	// U4 (thorough): 11 proposals mixing the three shapes.
 	uMix = reg(mkUniverse("mix11",
